@@ -6,7 +6,7 @@ import shutil
 import tempfile
 
 from engine import pool_map
-from readers import bgzf_blocks, line_at, load_pickle, read_text, run_cli, write_text
+from readers import bgzf_blocks, line_at, load_pickle, read_text, run_cli, write_text, workdir
 
 RC = str.maketrans("ACGT", "TGCA")
 
@@ -196,7 +196,7 @@ def align_line_start(recs, boundary):
 def run_session(job):
     sid, seed, pad, block = job
     rnd = random.Random(seed)
-    d = tempfile.mkdtemp(prefix="same_")
+    d = workdir("same_", sid)
     try:
         nodes, links, recs, reads = make_session(rnd, abs(pad))
         many = pad == -1      # a file with thousands of short records: queries with > 1000 hits, batches of output
